@@ -222,13 +222,13 @@ func init() {
 	reg(&PropSpec{ID: "C18", Title: "Codecs can be shared by concurrent goroutines (no call writes shared state)", DesignRef: "DESIGN.md §11 C18",
 		Groups: []Group{
 			{Funcs: `^(\(\*?)?(primitive|datatype|message|frame|segment|crc|compression/lz4|compression/snappy|datacodec)\.`,
-				Except: `(^|\.)init(#\d+)?$|\.lemma[A-Z]|^crc\.crc24Ref$|\)\.(DeepCopyInto|DeepCopy|DeepCopyMessage|DeepCopyDataType)$|^\(\*frame\.codec\)\.SetBodyCompressor$|^primitive\.ParseUuid$|^\(\*primitive\.UUID\)\.String$|^datacodec\.(read|write)(Collection|Map|Tuple|Udt)$`,
+				Except: `(^|\.)init(#\d+)?$|\.lemma[A-Z]|^crc\.crc24Ref$|\)\.(DeepCopyInto|DeepCopy|DeepCopyMessage|DeepCopyDataType)$|^\(\*frame\.codec\)\.SetBodyCompressor$|^primitive\.ParseUuid$|^\(\*primitive\.UUID\)\.String$|^datacodec\.read(Collection|Map|Tuple|Udt)$`,
 				Share: true, Classes: []string{"share"}},
 		},
 		Assume: []string{
 			"PRECONDITION (the property's 'distinct frames or values'): memory reachable from a call's non-codec arguments (frame, message, value, destination, reader, writer) is not reachable from any codec, compressor, data-type object, package-level variable or another goroutine's arguments; own(x) is assumed for those arguments and propagated through loads from pre-existing owned objects",
 			"what is proved: every store, map update, in-place append, copy, stream write and callee write-permission in the listed functions goes to memory the call allocated itself or to caller-owned memory - never to the shared receiver (types implementing the codec/compressor/DataType interfaces), to a package-level variable or to anything loaded from them; hence concurrent calls share only memory nobody writes and each call's result is the sequential function of its own arguments",
-			"NOT covered: interleavings as such and the race detector's view; functions that use package reflect (collection, map, tuple and UDT codecs, injectors/extractors, PreferredGoType) are outside the subset and listed under rejected/outside; third-party code (lz4's internal pools, snappy) and the standard library are trusted to be goroutine-safe; (*frame.codec).SetBodyCompressor is a configuration call that writes its receiver by design and is excluded; package initialisers are excluded",
+			"NOT covered: interleavings as such and the race detector's view; the decoding side of the container codecs (readCollection/readMap/readTuple/readUdt, injectors, PreferredGoType) uses package reflect and is outside the subset; the encoding side (writeCollection/writeMap/writeTuple/writeUdt) is covered under the ASSUMPTION that what an extractor returns belongs to the caller's source value and listed under rejected/outside; third-party code (lz4's internal pools, snappy) and the standard library are trusted to be goroutine-safe; (*frame.codec).SetBodyCompressor is a configuration call that writes its receiver by design and is excluded; package initialisers are excluded",
 			"callees not executed in place may write only through arguments that the call site proves fresh or caller-owned; arguments a callee provably never writes through (syntactic read-only analysis, conservative) and arguments of shared static type (never writable anywhere) are exempt",
 		}})
 }
@@ -240,10 +240,13 @@ func init() {
 		Groups: []Group{
 			{Funcs: `^\(\*frame\.codec\)\.(DecodeRawBody|DiscardBody|DecodeRawFrame|ConvertToRawFrame|ConvertFromRawFrame|DecodeBody|EncodeRawFrame|DecodeHeader|EncodeHeader)$`, OnlyCt: true, Classes: layoutClasses},
 			{Funcs: `^frame\.lemmaRawRoundTrip$`, OnlyCt: true, Classes: layoutClasses},
+			// the compressed flag alone decides whether the body goes through the compressor (token view)
+			{Funcs: `^frame\.lemmaEncodeBodyFlag$`, OnlyCt: true, Classes: []string{"post", "cover"}},
 			{Funcs: `Compressor\)\.(Compress|Decompress)WithLength$`, Classes: []string{"post", "frame", "pre"}},
 		},
 		Assume: []string{
 			"covered: DecodeRawBody and DiscardBody (seekable and plain sources) consume exactly Header.BodyLength bytes and refuse negative lengths; DecodeRawFrame = decoded header + exactly the declared bytes, unchanged; EncodeRawFrame = header bytes with BodyLength = len(body) + the body bytes unchanged; EncodeRawFrame then DecodeRawFrame returns the same header fields and body bytes; ConvertToRawFrame keeps the header object and declares the produced body's length; ConvertFromRawFrame keeps the header object; a compressed body is decompressed from at most BodyLength bytes (io.LimitReader) and body compressors touch only their two streams",
+			"covered (token view, ASSUMED token clause of the body compressor): with the compressed flag set, a successful EncodeBody writes exactly one element and it is the compressor's - a body is never written in plain under a header that announces compression (a seeded change that skipped compression for STARTUP/OPTIONS/READY was missed before this clause)",
 			"NOT covered: that DecodeFrame and DecodeRawFrame+ConvertFromRawFrame yield equal message contents (a relational statement over two decodings of the body), and the re-encode clause for arbitrary decodable inputs (needs the per-message round trip of C01)",
 			"ASSUMED: io.Seeker's documented contract; io.CopyN/io.LimitReader/bytes.Buffer stream models; message decoders write to no pre-existing stream other than their source (assumes-assigns; the C18 discipline is what backs it)",
 			"for a seekable source shorter than the declared body, DiscardBody returns nil where the plain-reader path reports an error; the contract states 'consumes exactly BodyLength' only when that many bytes exist (the property quantifies over valid frames)",
